@@ -1,5 +1,4 @@
-import Cppcheck.Model.XmlEsc
-import Cppcheck.Model.Template
+import Cppcheck.Proofs.Template
 import Cppcheck.Model.Sarif
 import Cppcheck.Gen.TinyXmlEntities
 import Cppcheck.Gen.Templates
@@ -10,10 +9,203 @@ C26 — property theorems (reports are faithful in every output format).
 namespace Cppcheck.C26
 open Cppcheck.XmlEsc Cppcheck.Template Cppcheck.Sarif
 
+/-! ## translator obligations -/
+
 /-- T1: the entity table, `ENTITY_RANGE` and the restricted flags extracted from the working tree's tinyxml2 are the
     ones the model (`printString`) and every theorem below use. -/
 theorem gen_entities_eq :
     Gen.TinyXmlEntities.entities = tinyEntities ∧ Gen.TinyXmlEntities.entityRange = entityRange ∧
     Gen.TinyXmlEntities.restrictedFlags = ['&', '<', '>'] := by decide
+
+/-- T2: every predefined `--template` format of cmdlineparser.cpp (and the default), after the static substitution
+    with or without colours, is a well-formed template — so `render_eq_spec_partial` applies to all of them. -/
+theorem predefined_templates_wf :
+    ∀ t ∈ Gen.Templates.predefined, ∀ erase ∈ [true, false], ∀ colors ∈ [true, false],
+      (parseTemplate (substituteStatic erase colors t.2.1)).isSome = true ∧
+      (parseTemplate (substituteStatic erase colors t.2.2)).isSome = true := by decide +kernel
+
+/-! ## text output -/
+
+theorem openFree_noOpen {s : Str} (h : openFree s = true) : noOpen s := by
+  intro c hc
+  unfold openFree at h
+  rw [List.all_eq_true] at h
+  have := h c hc
+  simpa using this
+
+/-- **Text = simultaneous substitution** (partial: the full statement is refuted below).
+    For every finding, every message template `tf` and location template `tl` that tokenize (`parseTemplate`: no
+    '{' inside a marker, no unterminated marker), if no substituted field value contains a '{', the text
+    `ErrorMessage::toString` produces is the one simultaneous substitution of the documented fields. -/
+theorem render_eq_spec_partial (src : Loc → Str) (f : Finding) (verbose : Bool) (tf tl : Str) (segsF segsL : List Seg)
+    (hF : parseTemplate tf = some segsF) (hL : parseTemplate tl = some segsL) (hv : valuesOK f verbose = true) :
+    toString src f verbose tf tl = Spec.render src f verbose segsF segsL := by
+  obtain ⟨wF, eF⟩ := parseTemplate_spec tf segsF hF
+  obtain ⟨wL, eL⟩ := parseTemplate_spec tl segsL hL
+  unfold valuesOK fieldValues at hv
+  rw [List.all_eq_true] at hv
+  have h0 := fun v hm => openFree_noOpen (hv v hm)
+  have hfiles : ∀ l ∈ f.stack, noOpen l.file := fun l hl => h0 l.file (by
+    simp only [List.mem_append, List.mem_map]; exact Or.inl (Or.inr ⟨l, hl, rfl⟩))
+  have hinfos : ∀ l ∈ f.stack, noOpen (if l.info = [] then f.shortMsg else l.info) := fun l hl => h0 _ (by
+    simp only [List.mem_append, List.mem_map]; exact Or.inr ⟨l, hl, rfl⟩)
+  have hV : ValuesOK f verbose :=
+    { id := h0 _ (by simp), cls := h0 _ (by simp), msg := h0 _ (by simp), remark := h0 _ (by simp), files := hfiles }
+  rw [← eF, ← eL]
+  exact toString_eq_spec src f verbose segsF segsL wF wL hV (fun _ => ⟨hfiles, hinfos⟩)
+
+/-- the hypotheses are satisfiable by a non-trivial case: the `gcc`-like template with a two-location finding -/
+example : ∃ segsF segsL,
+    parseTemplate "{file}:{line}:{column}: warning: {message} [{id}]\n{code}".toList = some segsF ∧
+    parseTemplate "{file}:{line}: note: {info}".toList = some segsL ∧
+    valuesOK { id := "nullPointer".toList, severity := 1, shortMsg := "Null pointer dereference: p".toList,
+               verboseMsg := "Null pointer dereference: p".toList,
+               stack := [⟨"a.c".toList, "a.c".toList, 8, 5, "Assignment 'p=0'".toList⟩, ⟨"a.c".toList, "a.c".toList, 3, 6, []⟩] } false = true := by
+  refine ⟨_, _, rfl, rfl, by decide⟩
+
+def f10Witness : Finding :=
+  { id := "preprocessorErrorDirective".toList, severity := 1, shortMsg := "#error see {line}".toList,
+    verboseMsg := "#error see {line}".toList, stack := [⟨"a.c".toList, "a.c".toList, 3, 2, []⟩] }
+
+/-- **F10** — the full statement is false of the code: the passes are sequential, so a `{line}` inside the message
+    is rewritten by the later `{line}` pass (`#error see {line}` with `--template={message}` prints `#error see 3`). -/
+theorem render_injection_counterexample :
+    ¬ ∀ (f : Finding) (tf : Str) (segs : List Seg), parseTemplate tf = some segs →
+        toString (fun _ => []) f false tf [] = Spec.render (fun _ => []) f false segs [] := by
+  intro h
+  have := h f10Witness "{message}".toList [.mk "message".toList] (by decide)
+  revert this
+  decide
+
+/-- what the code prints / what the documented meaning is, for the witness -/
+example : toString (fun _ => []) f10Witness false "{message}".toList [] = "#error see 3".toList := by decide
+example : Spec.render (fun _ => []) f10Witness false [.mk "message".toList] [] = "#error see {line}".toList := by decide
+
+/-! ## each finding once (`StdLogger::reportErr`) -/
+
+theorem stdLoggerGo_mem (render : Finding → Str) : ∀ (fs : List Finding) (shown : List Str) (f : Finding),
+    f ∈ stdLoggerGo render fs shown → f ∈ fs ∧ f.severity ≠ 8 ∧ render f ∉ shown := by
+  intro fs
+  induction fs with
+  | nil => intro shown f h; simp [stdLoggerGo] at h
+  | cons g r ih =>
+    intro shown f h
+    simp only [stdLoggerGo] at h
+    split at h
+    · have := ih shown f h; exact ⟨by simp [this.1], this.2⟩
+    · rename_i hsev
+      split at h
+      · have := ih shown f h; exact ⟨by simp [this.1], this.2⟩
+      · rename_i hshown
+        simp only [List.mem_cons] at h
+        rcases h with rfl | h
+        · exact ⟨by simp, hsev, by simpa using hshown⟩
+        · have := ih (render g :: shown) f h
+          exact ⟨by simp [this.1], this.2.1, fun hm => this.2.2 (by simp [hm])⟩
+
+/-- no rendering is printed twice -/
+theorem each_once_nodup (render : Finding → Str) : ∀ (fs : List Finding) (shown : List Str),
+    ((stdLoggerGo render fs shown).map render).Nodup := by
+  intro fs
+  induction fs with
+  | nil => intro shown; simp [stdLoggerGo]
+  | cons g r ih =>
+    intro shown
+    simp only [stdLoggerGo]
+    split
+    · exact ih shown
+    · split
+      · exact ih shown
+      · rw [List.map_cons, List.nodup_cons]
+        refine ⟨?_, ih _⟩
+        intro hm
+        simp only [List.mem_map] at hm
+        obtain ⟨f, hf, he⟩ := hm
+        have := (stdLoggerGo_mem render r (render g :: shown) f hf).2.2
+        exact this (by simp [he])
+
+/-- every rendering of a non-internal finding is printed (so, with `each_once_nodup`, exactly once) -/
+theorem each_once_covered (render : Finding → Str) : ∀ (fs : List Finding) (shown : List Str) (f : Finding),
+    f ∈ fs → f.severity ≠ 8 → render f ∈ shown ∨ render f ∈ (stdLoggerGo render fs shown).map render := by
+  intro fs
+  induction fs with
+  | nil => intro shown f h; simp at h
+  | cons g r ih =>
+    intro shown f hf hsev
+    simp only [List.mem_cons] at hf
+    simp only [stdLoggerGo]
+    rcases hf with rfl | hf
+    · rw [if_neg hsev]
+      split
+      · rename_i hs; left; simpa using hs
+      · right; simp
+    · split
+      · exact ih shown f hf hsev
+      · split
+        · exact ih shown f hf hsev
+        · rcases ih (render g :: shown) f hf hsev with h | h
+          · simp only [List.mem_cons] at h
+            rcases h with h | h
+            · right; simp [h]
+            · left; exact h
+          · right; simp only [List.map_cons, List.mem_cons]; right; exact h
+
+/-- **Each finding once**: the renderings handed to the writer are pairwise distinct, and the rendering of every
+    non-internal finding of the run is among them. -/
+theorem each_once (render : Finding → Str) (fs : List Finding) :
+    ((stdLogger render fs).map render).Nodup ∧
+    ∀ f ∈ fs, f.severity ≠ 8 → render f ∈ (stdLogger render fs).map render := by
+  refine ⟨each_once_nodup render fs [], ?_⟩
+  intro f hf hsev
+  rcases each_once_covered render fs [] f hf hsev with h | h
+  · simp at h
+  · exact h
+
+/-- when the text renderings of the non-internal findings are pairwise distinct, no finding is dropped — the
+    hypothesis under which the XML / SARIF writers receive every finding (they share the text-keyed filter) -/
+theorem stdLogger_all_partial (render : Finding → Str) : ∀ (fs : List Finding) (shown : List Str),
+    ((fs.filter (fun f => f.severity ≠ 8)).map render).Nodup →
+    (∀ f ∈ fs, f.severity ≠ 8 → render f ∉ shown) →
+    stdLoggerGo render fs shown = fs.filter (fun f => f.severity ≠ 8) := by
+  intro fs
+  induction fs with
+  | nil => intro shown _ _; rfl
+  | cons g r ih =>
+    intro shown hnd hns
+    simp only [stdLoggerGo]
+    by_cases hsev : g.severity = 8
+    · rw [if_pos hsev]
+      have : (g :: r).filter (fun f => decide (f.severity ≠ 8)) = r.filter (fun f => decide (f.severity ≠ 8)) := by
+        simp [List.filter, hsev]
+      rw [this] at hnd ⊢
+      exact ih shown hnd (fun f hf => hns f (by simp [hf]))
+    · rw [if_neg hsev]
+      have hflt : (g :: r).filter (fun f => decide (f.severity ≠ 8)) = g :: r.filter (fun f => decide (f.severity ≠ 8)) := by
+        simp [List.filter, hsev]
+      rw [hflt] at hnd ⊢
+      rw [List.map_cons, List.nodup_cons] at hnd
+      have hg : render g ∉ shown := hns g (by simp) hsev
+      have : shown.contains (render g) = false := by simpa using hg
+      rw [this]
+      simp only [Bool.false_eq_true, if_false]
+      congr 1
+      apply ih _ hnd.2
+      intro f hf hfs hm
+      simp only [List.mem_cons] at hm
+      rcases hm with hm | hm
+      · apply hnd.1
+        rw [← hm]
+        exact List.mem_map.mpr ⟨f, by simp [List.mem_filter, hf, hfs], rfl⟩
+      · exact hns f (by simp [hf]) hfs hm
+
+example : ((["a".toList, "b".toList]).map id).Nodup := by decide
+
+/-- the filter key is the *text*: two findings that differ only in a field the template does not show (here the CWE
+    number under `{file}:{line}: {message} [{id}]`) reach the XML / SARIF writer as one -/
+theorem xml_dedup_by_text_counterexample :
+    ∃ f g : Finding, f ≠ g ∧ toXML f ≠ toXML g ∧
+      stdLogger (fun x => toString (fun _ => []) x false "{file}:{line}: {message} [{id}]".toList []) [f, g] = [f] := by
+  refine ⟨{ id := "a".toList, severity := 1, cwe := 1, shortMsg := "m".toList, verboseMsg := "m".toList },
+          { id := "a".toList, severity := 1, cwe := 2, shortMsg := "m".toList, verboseMsg := "m".toList }, ?_, ?_, ?_⟩ <;> decide
 
 end Cppcheck.C26
